@@ -7,6 +7,7 @@ import (
 	"go/types"
 	"path/filepath"
 	"sort"
+	"strconv"
 	"strings"
 
 	"golang.org/x/tools/go/packages"
@@ -133,11 +134,19 @@ func (r Registry) searchImport(name string) (*Package, bool) {
 // packages with conflicting qualifiers.
 func (r Registry) resolveImportConflict(a, b *Package, lvl int) {
 	if a.uniqueName(lvl) == b.uniqueName(lvl) {
+		if lvl > a.depth() && lvl > b.depth() {
+			// The sanitised paths are identical, adding more path
+			// components cannot tell the packages apart.
+			a.Alias = r.numberedAlias(a.uniqueName(lvl))
+			return
+		}
 		r.resolveImportConflict(a, b, lvl+1)
 		return
 	}
 
-	for _, p := range []*Package{a, b} {
+	// Rename the already registered package first: the name wanted for
+	// the new package may be the qualifier the registered one still has.
+	for _, p := range []*Package{b, a} {
 		name := p.uniqueName(lvl)
 		// Even though the name is not conflicting with the other package we
 		// got, the new name we want to pick might already be taken. So check
@@ -208,4 +217,15 @@ func parseImportsAliases(syntaxTree []*ast.File) map[string]string {
 		}
 	}
 	return aliases
+}
+
+// numberedAlias returns the first of name2, name3, ... which is not
+// used as a qualifier by any registered import.
+func (r Registry) numberedAlias(name string) string {
+	for n := 2; ; n++ {
+		alias := name + strconv.Itoa(n)
+		if _, ok := r.searchImport(alias); !ok {
+			return alias
+		}
+	}
 }
